@@ -121,6 +121,30 @@ def _mk(scn, plan, cfg):
     return s
 
 
+def debugger_trap_line(mi, scn, plan):
+    """Run to the trap under the debugger and read the line `bt` reports for
+    the innermost frame.  None when the session is unusable."""
+    import re
+    from qvm.dbg import Cmd
+    sim = Sim(mi, scn['script'], plan, budget=CAP, fresh_module=True)
+    box = {}
+    sim.guarded(lambda: box.setdefault('dbg', Cmd(sim.machine, sim.module)))
+    if sim.exc is not None or 'dbg' not in box:
+        return None
+    dbg = box['dbg']
+    dbg.auto_status = 'off'
+    sim.guarded(lambda: dbg.onecmd('continue'))
+    if sim.exc is not None or not sim.cpu.halted:
+        return None
+    before = len(sim.stdout.getvalue())
+    sim.guarded(lambda: dbg.onecmd('bt'))
+    if sim.exc is not None:
+        return None
+    text = sim.stdout.getvalue()[before:]
+    m = re.search(r'^\[1\].* line (\d+)\s*$', text, re.M)
+    return int(m.group(1)) if m else None
+
+
 def check_plan(scn, plan, res, cos, pos, text_of, by_id):
     ref = TracingInterp(scn['ast'], scn['script'], plan)
     try:
@@ -140,8 +164,23 @@ def check_plan(scn, plan, res, cos, pos, text_of, by_id):
         pcs = {}
         starts = []
 
+        di = sim.module.debug_info
+        lookup_bad = []
+
         def post(s_, n):
             pc = s_.cpu.pc
+            if not s_.cpu.halted and not lookup_bad and pc < mi.code_len:
+                # the repository's own lookup, asked after every instruction
+                # the way step / next ask it, must name the innermost record
+                # (whatever it was asked before)
+                got = di.find_stmt(pc, s_.cpu)
+                mine = mi.innermost(pc)
+                if got is not None and mine is not None and pc != 0 and \
+                        (got.start_offset, got.end_offset) != (mine[0], mine[1]) and \
+                        got.end_offset - got.start_offset > mine[1] - mine[0]:
+                    lookup_bad.append({'pc': pc, 'tick': n,
+                                       'lookup': [got.start_offset, got.end_offset, got.source_start_line],
+                                       'innermost': [mine[0], mine[1], mine[2]]})
             if pc in mi.stmt_starts and not s_.cpu.halted:
                 ln = mi.stmt_starts[pc][2]
                 if not starts or starts[-1] != ln or True:
@@ -156,6 +195,12 @@ def check_plan(scn, plan, res, cos, pos, text_of, by_id):
             continue
         if ref.resumed or any(e['armed'] for e in mon.events):
             res.count('runs_with_handled_error')
+        res.count('lookups_after_every_instruction', out['ticks'])
+        if lookup_bad:
+            res.violation('C11:lookup', dict(lookup_bad[0], config=cfg, plan=plan,
+                                             what='find_stmt names an enclosing record, not the innermost one'),
+                          _mk(scn, plan, cfg), sig={'at': 'lookup'})
+            return ref
         # (a) device calls: pair machine calls with reference events by kind
         mcalls = []
         for h, o, ioev in zip(sim.history, sim.impl.origins, [None] * len(sim.history)):
@@ -211,6 +256,16 @@ def check_plan(scn, plan, res, cos, pos, text_of, by_id):
                                                'expected_line': want[0], 'map_line': out['line']},
                                   _mk(scn, plan, cfg), sig={'at': 'trap'})
                     return ref
+                # ... and so does the debugger when the same run is driven
+                # through it: the innermost frame of `bt` shows that line
+                shown = debugger_trap_line(mi, scn, plan)
+                if shown is not None:
+                    res.count('debugger_trap_reports_checked')
+                    if shown != want[0]:
+                        res.violation('C11:line', {'trap': out['trap'], 'config': cfg, 'plan': plan,
+                                                   'expected_line': want[0], 'debugger_bt_line': shown},
+                                      _mk(scn, plan, cfg), sig={'at': 'debugger-bt'})
+                        return ref
         # (c) executed simple statements appear in order among the statement starts
         if not ref.resumed and rout['trap'] is None:
             coded = {v[2] for v in mi.stmt_starts.values()}
